@@ -44,7 +44,7 @@ FUNC_KINDS_T = {"NEG", "NOT", "PAREN", "OR", "AND", "CMP", "ADD", "MUL"}
 
 
 def consts(**kw):
-    c = dict(MaxOps=3, KindsM=ALL_KINDS, CmpOpsM={1}, LogSpM={2}, WithFunc=False,
+    c = dict(MaxOps=3, KindsM=ALL_KINDS, CmpOpsM={1}, LogSpM={2}, WithFunc=False, TypedM=False,
              Ladder="lark", AndOrParens=True, CmpParens=True, OuterRule="matched", DenoteLadder="ms",
              AllCmpOps=set(exprtok.CMP_OPS), RootCmpOps={i for i in exprtok.CMP_OPS if i <= 19}, AllLogSp={1, 2, 3}, AtomIds=set(exprtok.ATOMS),
              FuncIds=set(exprtok.FUNCS), MaxWalkOps=12, RootKindsS=ALL_KINDS | {"ATOM"})
@@ -70,11 +70,11 @@ def model_jobs(quick):
     jobs = [
         ("m_contract", "contract", CONTRACT_INVS, dict(MaxOps=n, **spell)),
         ("m_contract_func", "contract", CONTRACT_INVS, dict(MaxOps=3, KindsM=fk, WithFunc=True)),
-        ("m_mech_wrapped", "lead", ["WrappedLead"], dict(MaxOps=n, OuterRule="startsends")),
-        ("m_mech_stable", "lead", ["StableLead"], dict(MaxOps=n, OuterRule="startsends")),
-        ("m_mech_regroup", "lead", ["NoRegroupLead"], dict(MaxOps=n, OuterRule="startsends")),
+        ("m_mech_wrapped", "lead", ["WrappedLead"], dict(MaxOps=n, OuterRule="startsends", TypedM=True)),
+        ("m_mech_stable", "lead", ["StableLead"], dict(MaxOps=n, OuterRule="startsends", TypedM=True)),
+        ("m_mech_regroup", "lead", ["NoRegroupLead"], dict(MaxOps=n, OuterRule="startsends", TypedM=True)),
         ("m_mech_regroup_func", "lead", ["NoRegroupLead"],
-         dict(MaxOps=3, KindsM=fk, WithFunc=True, OuterRule="startsends")),
+         dict(MaxOps=3, KindsM=fk, WithFunc=True, OuterRule="startsends", TypedM=True)),
         ("m_neg_swapped", "negative", ["NoRegroup"], dict(MaxOps=2, Ladder="swapped")),
     ]
     if not quick:
@@ -90,15 +90,16 @@ ROOT_GROUPS = [{"CMP"}, {"OR", "AND", "NOT"}, {"ADD", "SUB", "MUL"}, {"DIV", "PO
 
 
 def emit_shapes(ck, n, seed, tag, roots=None):
+    # (the emitted `norm` is the prediction of the model of the *current* builders: mechanism-drift note only)
     cfg = tlc.cfg_text(init="SInit", next_="SNext", invariants=["Emit"],
-                       constants=consts(MaxOps=n, RootKindsS=set(roots or ALL_KINDS | {"ATOM"})))
+                       constants=consts(MaxOps=n, OuterRule="startsends", RootKindsS=set(roots or ALL_KINDS | {"ATOM"})))
     r = tlc.run("Expr", cfg, tag=tag, workers=1, seed=seed, timeout=3000, heap="3g")
     ck.add_tlc(tag, r)
     return [p for p in r.prints if isinstance(p, dict) and "src" in p]
 
 
 def emit_walks(ck, num, seed, tag):
-    cfg = tlc.cfg_text(init="WInit", next_="WNext", constants=consts(), invariants=["Emit"])
+    cfg = tlc.cfg_text(init="WInit", next_="WNext", constants=consts(OuterRule="startsends"), invariants=["Emit"])
     r = tlc.run("Expr", cfg, tag=tag, mode="simulate", simulate="num=%d" % num, depth=80, workers=1, seed=seed,
                 timeout=3000, heap="3g")
     ck.add_tlc(tag, r)
